@@ -95,7 +95,10 @@ def main():
         _, desc, info, kind = f
         klen = info['klen']
         for attempt in range(6):
-            dv = ck.rng.randrange(1, min(N - 2, 256 ** klen - 1) + 1)
+            # the private key is pinned to a random value (generic failures), to a value with leading zero bytes, or left
+            # to the solver (failures that need a special key); the nonce is always pinned (its curve point is needed)
+            dmax = min(N - 2, 256 ** klen - 1)
+            dv = [ck.rng.randrange(1, dmax + 1), None, ck.rng.randrange(1, min(dmax, 2 ** 247) + 1), ck.rng.randrange(1, dmax + 1), None, ck.rng.randrange(1, 2 ** 64)][attempt]
             kvs = [ck.rng.randrange(1, N) for _ in range(maxc)]
             found = {}
 
@@ -123,17 +126,18 @@ def main():
                         bad = True
                 if not bad:
                     return None
-                pins = [(d, dv)] + [(k, kv) for k, kv in zip(rd.v.ks, kvs)]
+                pins = ([(d, dv)] if dv is not None else []) + [(k, kv) for k, kv in zip(rd.v.ks, kvs)]
                 m = solve_with_truth(e, pins, extra, timeout=20000 * (1 + attempt))
                 if m is not None:
                     found['e'] = mval(m, ev)
                     found['ks'] = kvs[:len(rd.v.ks)]
+                    found['d'] = dv if dv is not None else mval(m, d)
                 return None
             eng2 = proto_engine(prog)
             eng2.explore(rerun)
             ck.absorb(eng2)
             if found:
-                return dv, found['e'], found['ks']
+                return found['d'], found['e'], found['ks']
         return None
 
     def replay(dv, evv, ks, klen):
